@@ -438,6 +438,23 @@ func structures() map[string]*descriptorpb.FileDescriptorProto {
 		{Name: str("Item"), NestedType: []*descriptorpb.DescriptorProto{{Name: str("Detail"), Field: []*descriptorpb.FieldDescriptorProto{fld("other", 1, int32T), fld("more", 2, int32T)}}},
 			Field: []*descriptorpb.FieldDescriptorProto{fld("d", 1, ftype{"m", descriptorpb.FieldDescriptorProto_TYPE_MESSAGE, ".rt.v1.Item.Detail"})}},
 	})
+	// a proto oneof named "type" with message members next to an ordinary field: an object, not a wrapper
+	add("oneof-type-plus-extra-field", []*descriptorpb.DescriptorProto{{Name: str("M"), OneofDecl: []*descriptorpb.OneofDescriptorProto{{Name: str("type")}},
+		Field: []*descriptorpb.FieldDescriptorProto{inOneof(fld("circle", 1, msgT("Sub")), 0), inOneof(fld("square", 2, msgT("Nothing")), 0), fld("note", 3, stringT)}}})
+	add("oneof-type-plus-extra-message-field", []*descriptorpb.DescriptorProto{{Name: str("M"), OneofDecl: []*descriptorpb.OneofDescriptorProto{{Name: str("type")}},
+		Field: []*descriptorpb.FieldDescriptorProto{fld("extra", 3, msgT("Sub")), inOneof(fld("circle", 1, msgT("Sub")), 0), inOneof(fld("square", 2, msgT("Nothing")), 0)}}})
+	// the same property name at the ends of a two-level flatten chain
+	add("flatten-chain-duplicate-name-two-levels", []*descriptorpb.DescriptorProto{
+		{Name: str("M"), Field: []*descriptorpb.FieldDescriptorProto{fld("name", 1, stringT), flat(fld("mid", 2, msgT("Mid")))}},
+		{Name: str("Mid"), Field: []*descriptorpb.FieldDescriptorProto{fld("other", 1, stringT), flat(fld("inner", 2, msgT("Inner")))}},
+		{Name: str("Inner"), Field: []*descriptorpb.FieldDescriptorProto{fld("name", 1, stringT)}},
+	})
+	add("flatten-chain-duplicate-name-siblings", []*descriptorpb.DescriptorProto{
+		{Name: str("M"), Field: []*descriptorpb.FieldDescriptorProto{flat(fld("left", 1, msgT("Mid"))), flat(fld("right", 2, msgT("Mid2")))}},
+		{Name: str("Mid"), Field: []*descriptorpb.FieldDescriptorProto{flat(fld("inner", 1, msgT("Inner")))}},
+		{Name: str("Mid2"), Field: []*descriptorpb.FieldDescriptorProto{fld("name", 1, stringT)}},
+		{Name: str("Inner"), Field: []*descriptorpb.FieldDescriptorProto{fld("name", 1, stringT)}},
+	})
 	// every rule / list rule / info carrier the reflection can populate
 	{
 		opt := func(fd *descriptorpb.FieldDescriptorProto, as ...annot) *descriptorpb.FieldDescriptorProto {
